@@ -1,7 +1,7 @@
 """C12 / unit c12_cuts - statement-level Coq model of the cut choice of Polygon::fracture (axis, cut positions) tied to the real
 code path; to be run as a second unit of C12 (see the "units" entry in the report / checks/c12.py)."""
 CONFIG = {
-    "manifest": {'level_text': "Statement-level Gallina model fracture_cuts (coq/FractureCuts.v) of one round of the loop of Polygon::fracture up to the call of slice: bounding box, num_cuts = num_points / max_points, axis test max.x - min.x > max.y - min.y, coordinate copy, gdstk's own sort (the Sort.v model, proved an ordered permutation for every strict weak order), the two scans that strip the minimum / maximum values, the three cut rules (midpoint, all interior coordinates, interior[(uint64_t)(j * frac)]). Doubles are Flocq binary64 values and every floating-point operation of the C++ is the Flocq operation (round to nearest even; truncating cast), so axis and cuts are bit-exact. Theorems for EVERY vertex list of finite doubles below 2^1023 with more than max_points > 4 and fewer than 2^53 vertices: if the chosen-axis coordinates are not all equal the model returns the axis the extent test chooses and a cut list with between 1 and num_cuts cuts, finite, non-decreasing, each a coordinate of the subject STRICTLY between the minimum and the maximum or (when no coordinate lies strictly inside) the single midpoint, which lies within [min, max] (fracture_cuts_ok, cuts_within); no index (uint64_t)(j * frac) reaches interior.count (cut_index_in_bounds, over Flocq binary64 for every count < 2^53); the cuts taken to the integer grid by llround(scaling * c) satisfy sortedZ, the hypothesis of the strip theorems of slice (cuts_grid_sorted, fracture_cuts_strips); if the chosen-axis coordinates are all equal the unbounded first scan reads past the allocation (Crash; fracture_cuts_crash) and that happens exactly when all vertices are one point (degenerate_axis_iff). 'The midpoint is strictly inside' is refuted in floating point (midpoint_strict_refuted: two adjacent doubles) and proved on a dyadic grid (midpoint_exact_strict). On the integer grid slice works on: a strip of strictly interior cuts is narrower than the box (strips_narrower), llround((A+B)/2) is strictly inside iff B - A >= 2 (grid_midpoint_strict), every piece has a smaller extent sum (grid_chop_decreases) and the work-list loop terminates (fracture_terminates_partial) - CONDITIONAL on Clipper's contract that a strip result lies inside its strip and on strictly interior cuts (Section hypotheses).", 'level_note': "The model is tied to the code by the differential run: src/polygon.cpp is compiled into the harness with the call of slice inside Polygon::fracture renamed to a logging wrapper, so every round of the real loop yields (subject, axis, cuts), compared bit for bit with the extracted model. Where the model says Crash (all vertices one point) the C++ has undefined behaviour and any implementation result is accepted; the input is reported as finding c12-fracture-scan-oob. Termination is proved only under Clipper's contract and strictly interior grid cuts; a hang with adjacent-double extents on a weakly simple polygon is a recorded witness (report). NaN / infinite coordinates are outside the model (ErrInvalid).", 'technique': 'Coq proofs over Flocq binary64 (cut bounds, order, index bound) + Z-level progress / termination under the Clipper contract + differential run of the extracted model against the logged arguments of slice'},
+    "manifest": {'level_text': "Statement-level Gallina model fracture_cuts (coq/FractureCuts.v) of one round of the loop of Polygon::fracture up to the call of slice: bounding box, num_cuts = num_points / max_points, axis test max.x - min.x > max.y - min.y, coordinate copy, gdstk's own sort (the Sort.v model, proved an ordered permutation for every strict weak order), the two scans that strip the minimum / maximum values, the three cut rules (midpoint, all interior coordinates, interior[(uint64_t)(j * frac)]). Doubles are Flocq binary64 values and every floating-point operation of the C++ is the Flocq operation (round to nearest even; truncating cast), so axis and cuts are bit-exact. Theorems for EVERY vertex list of finite doubles below 2^1023 with more than max_points > 4 and fewer than 2^53 vertices: if the chosen-axis coordinates are not all equal the model returns the axis the extent test chooses and a cut list with between 1 and num_cuts cuts, finite, non-decreasing, each a coordinate of the subject STRICTLY between the minimum and the maximum or (when no coordinate lies strictly inside) the single midpoint, which lies within [min, max] (fracture_cuts_ok, cuts_within); no index (uint64_t)(j * frac) reaches interior.count (cut_index_in_bounds, over Flocq binary64 for every count < 2^53); the cuts taken to the integer grid by llround(scaling * c) satisfy sortedZ, the hypothesis of the strip theorems of slice (cuts_grid_sorted, fracture_cuts_strips); for EVERY vertex list of finite doubles the model returns a cut list - no out-of-bounds access, no undefined cast (fracture_cuts_no_crash); if the chosen-axis coordinates are all equal - exactly when all vertices are one point (degenerate_axis_iff) - the first scan stops at the end of the array, the interior count is 0 and the single cut is that coordinate (fracture_cuts_all_equal); the code before commit e912cb9 (unbounded first scan) is kept as fracture_cuts_unrepaired with its Crash theorem and witness (fracture_cuts_unrepaired_crash, fracture_cuts_unrepaired_refuted). 'The midpoint is strictly inside' is refuted in floating point (midpoint_strict_refuted: two adjacent doubles) and proved on a dyadic grid (midpoint_exact_strict). On the integer grid slice works on: a strip of strictly interior cuts is narrower than the box (strips_narrower), llround((A+B)/2) is strictly inside iff B - A >= 2 (grid_midpoint_strict), every piece has a smaller extent sum (grid_chop_decreases) and the work-list loop terminates (fracture_terminates_partial) - CONDITIONAL on Clipper's contract that a strip result lies inside its strip and on strictly interior cuts (Section hypotheses).", 'level_note': "The model is tied to the code by the differential run: src/polygon.cpp is compiled into the harness with the call of slice inside Polygon::fracture renamed to a logging wrapper, so every round of the real loop yields (subject, axis, cuts), compared bit for bit with the extracted model. The doubles Polygon::fracture allocates for its coordinate copy end at an inaccessible page in the harness children (the allocate / free_allocation calls written in polygon.cpp are renamed the same way), so a read past that array faults in every build; a crash on all-identical vertices is reported under the key of the repaired defect c12-fracture-scan-oob. Termination is proved only under Clipper's contract and strictly interior grid cuts; a hang with adjacent-double extents on a weakly simple polygon is a recorded witness (report). NaN / infinite coordinates are outside the model (ErrInvalid).", 'technique': 'Coq proofs over Flocq binary64 (cut bounds, order, index bound) + Z-level progress / termination under the Clipper contract + differential run of the extracted model against the logged arguments of slice'},
     "prop_file": "Properties_C12F",
     "extract_file": "Extract_C12F",
     "extracted": ["c12_cuts"],
@@ -20,24 +20,22 @@ CONFIG = {
              "num_cuts + 2 interior coordinates); frac-exact (interior counts for which j * count / (num_cuts + 1) is an integer for some j, "
              "half of them (count, num_cuts) pairs found by search on which the double computation of the index differs from the "
              "exact quotient); large (300..5000 vertices, limits 5..200, coordinate pools with many repeats, "
-             "full-mantissa, subnormal and signed-zero coordinates); degenerate axis (one point - the crashing input -, horizontal, "
+             "full-mantissa, subnormal and signed-zero coordinates); degenerate axis (one point - must return the single cut equal to the coordinate -, horizontal, "
              "vertical, 3x3 lattice); axis-tie (equal extents, extents one ulp apart, extents whose difference vanishes in the "
              "rounding of the subtraction); midpoint (two values 1..4 ulps apart, opposite signs, subnormals). P: cut list "
              "non-empty, non-decreasing and within the subject's extent on the chosen axis; the first subject is the polygon "
-             "itself; all-identical vertices = finding c12-fracture-scan-oob. Non-trivial: more than 5 vertices (fracidx: all); "
+             "itself; a crash on all-identical vertices = c12-fracture-scan-oob (repaired by e912cb9). Non-trivial: more than 5 vertices (fracidx: all); "
              "distinct = distinct payloads"),
     "trusted": ["harness/c12_cuts.cpp: the macro that renames the call of slice inside the included polygon.cpp, the log "
                 "format and its parser", "ocaml/c12_cuts_driver.ml: hex <-> bit pattern conversion"],
     "assumptions": ["coordinates are finite doubles (NaN / infinity: outside the model)",
-                    "where the model says Crash the C++ has undefined behaviour: any implementation result is accepted"],
+                    ],
 }
 
 
 def same(kind, impl, model):
-    i, m = impl.strip(), model.strip()
-    if m == "crash":      # undefined behaviour in the C++ (read past the coords allocation): any result is allowed
-        return True
-    return i == m
+    # the model never says crash on finite input (fracture_cuts_no_crash): a crash of the real code is a difference
+    return impl.strip() == model.strip()
 
 
 def nontrivial(kind, payload, r):
